@@ -15,6 +15,21 @@ CLAIMED = {
  "C09": dict(cat="model_checking", technique="TLA+ specification as oracle (SluLU!WellFormedLU evaluated by TLC on the projected output) + SluPipe model checking of numbering/storage/fixupL",
              text="WellFormedLU is a declarative TLA+ definition of a well-formed (L,U,perm_r,perm_c); TLC evaluates it on the structure returned by every recorded real factorization (first-time, refactored, user workspace) and checks equality with the supernode maps of the model state reached by the validated trace; the model itself establishes CompactionSafe/TopoNumbering/SupernodeMaps for every interleaving of small forests.",
              note="Structures logged in full only for n<=80; trusted: TLC, the projection code of the harness (drv_pipe.c put_list).", ref="3.2, 4.5, 5 C09"),
+ "C01": dict(cat="exploration", technique="TLA+ history enumeration (SluApi) + trace validation of executed histories (SluApiTrace, SluPipeTrace); residual clause via harness oracle",
+             text="TLC enumerates the legal histories of simple-driver calls; each sampled history is executed on the real library in four precisions with NC/NR storage, nrhs 0..3, padded ldb, all orderings, 1..16 threads and schedule perturbation; TLC then validates every call record (info, A unchanged, padding, residual ratio <= 1) and every recorded factorization against the pipeline specification.",
+             note="The backward-stability inequality itself is evaluated by the long-double oracle of the harness (TLC cannot do IEEE arithmetic) and asserted by the trace specification; sampled inputs, no exhaustiveness claim.", ref="3.6, 4.6, 5 C01"),
+ "C07": dict(cat="exploration", technique="TLA+ history enumeration (SluApi) + trace validation of executed expert-driver calls (SluApiTrace); accuracy clauses via harness oracle",
+             text="All (fact, trans, storage, memory mode) combinations are enumerated by TLC as histories; badly scaled matrices force every equed outcome; the trace specification demands info in {0,n+1}, A and B changed exactly as equed/R/C say, and a componentwise backward error of X for the ORIGINAL system of order (n+1)eps.",
+             note="Accuracy asserted only for cond < 1e8; oracle = long double dense arithmetic. Known finding F16 (complex CONJ) is reported as KNOWN-FINDING.", ref="3.6, 5 C07"),
+ "C08": dict(cat="model_checking", technique="TLA+ model checking of the call-history object (SluApi, exhaustive to depth 4/5) + trace validation of executed histories",
+             text="TLC enumerates every legal history over {first factor, refactor (usepr y/n, new values), FACTORED solve(trans), destroy} up to the depth bound; sampled histories run on the real library with different values per version; the trace specification requires every call to solve the current values and FACTORED calls to leave A, L, U and both permutations bit-identical.",
+             note="Exhaustive enumeration of histories to the stated depth, execution of a seed-chosen sample; oracle-evaluated backward error.", ref="3.6, 5 C08"),
+ "C02": dict(cat="model_checking", technique="TLA+ specification as oracle (SluPivot!StepOK, SluLU) evaluated by TLC on every recorded factorization + SluPipe trace validation; reconstruction bound via harness oracle",
+             text="The pivot policy is a TLA+ definition over the abstract inputs of a step (user row / original diagonal / maximum, each not-a-candidate, ineligible, eligible or undecided); the harness reconstructs these inputs and the row actually taken for every column from the returned factors and TLC checks every step, the multiplier bound and the reconstruction ratio, over thresholds 0..1, explicit zero diagonals, small-integer ties, all panel/relax/maxsuper settings and forced pivot orders on n<=4 patterns.",
+             note="Threshold relations within 16 ulp are 'undecided' and accepted; the reconstruction inequality is evaluated in long double by the harness oracle.", ref="3.4, 5 C02"),
+ "C06": dict(cat="model_checking", technique="TLA+ model checking (SluPipe with zero pivots: info = min over all zero-pivot columns for every interleaving) + trace validation of singular runs + SluApi history validation",
+             text="TLC checks on all small forests that the reported info is the minimum zero-pivot column whatever the schedule; recorded factorizations with 1..3 exactly-zero columns in different subtrees are validated event by event (each worker's Exit carries its own minimum, Wrap the global one) and the expected position in A*Pc order is compared; both drivers are driven through singular histories (B / X untouched, outputs inspectable and destroyable).",
+             note="Explicit zeros only (structurally nonsingular patterns); structurally singular inputs are the recorded finding F3.", ref="3.2, 3.6, 5 C06"),
 }
 NA_REASON = "check not built yet in this session (planned, see DESIGN.md section 5); not claimed"
 
